@@ -1,37 +1,9 @@
-import SJ.Proofs.Ieee64
-import SJ.Model.FloatDefault
+import SJ.Proofs.Pow10Table
 /-!
 # Helper lemmas for C08: the default number → f64 path
 -/
 namespace SJ.Proofs.FloatDefault
 open SJ SJ.Spec.Ieee SJ.Spec.Decimal SJ.Model.FloatDefault SJ.Proofs.Ieee
-
-/-! ## The `overflow!` macro and the `POW10` table (both regenerated from the source) -/
-
-/-- the macro body, as written in the source, is `a * 10 + b > c` for a digit `b` -/
-theorem overflow_eq (a b c : Nat) (hb : b ≤ 9) : overflow a b c = decide (a * 10 + b > c) := by
-  unfold overflow Gen.overflowMacro
-  rw [Bool.eq_iff_iff]
-  simp only [Bool.and_eq_true, Bool.or_eq_true, decide_eq_true_eq]
-  omega
-
-/-- entry `i` of `POW10` is the literal `1e<i>`, for all 309 entries -/
-theorem pow10Exps_eq : Gen.pow10Exps = List.range 309 := by decide +kernel
-
-theorem pow10_table_length : Gen.pow10Exps.length = 309 ∧ Gen.pow10Declared = 309 := by
-  constructor <;> decide +kernel
-
-theorem pow10_table_correct : ∀ i, i < 309 → Gen.pow10Exps[i]? = some i := by
-  intro i hi
-  rw [pow10Exps_eq]
-  simp [hi]
-
-theorem pow10_eq (i : Nat) : pow10 i = if i < 309 then some (litPow10 i) else none := by
-  unfold pow10
-  rw [pow10Exps_eq]
-  by_cases h : i < 309 <;> simp [h]
-
-theorem fromParts_consts : Gen.fromPartsBigExp = 308 ∧ Gen.fromPartsStep = 308 := ⟨rfl, rfl⟩
 
 /-! ## The loop never runs out of fuel -/
 
@@ -63,5 +35,92 @@ theorem loop_fuel (f : UInt64) (e : Int) : loop (fuelFor e) f e ≠ .outOfFuel :
   apply loop_fuel_aux
   unfold fuelFor
   split <;> omega
+
+
+/-! ## Exactness of `f64_from_parts` on the short domain -/
+
+theorem wrappingAbsUsize_small (e : Int) (h1 : -400 ≤ e) (_h2 : e ≤ 400) :
+    wrappingAbsUsize e = e.natAbs := by
+  unfold wrappingAbsUsize i32Min
+  rw [if_neg (by omega)]
+
+/-- `significand < 2^53` and `|exponent| ≤ 22`: one correctly rounded operation on two exactly
+    represented operands, so the result is the correctly rounded value of `significand · 10^exponent` -/
+theorem f64FromParts_exact (positive : Bool) (s : Nat) (e : Int) (hs : s < 2 ^ 53)
+    (he1 : -22 ≤ e) (he2 : e ≤ 22) :
+    f64FromParts positive s e = roundNE64 (!positive) (scale10 s e).1 (scale10 s e).2 := by
+  obtain ⟨ha1, hafin, hasign⟩ := F64.ofU64_finite s (by omega)
+  have hamag := F64.ofU64_exact s hs
+  have hk : e.natAbs ≤ 22 := by omega
+  obtain ⟨hbfin, hbsign, hbz, _⟩ := litPow10_facts e.natAbs (by omega)
+  have hbmag := litPow10_exact e.natAbs hk
+  have hfuel : fuelFor e = (e.natAbs + 1) + 1 := rfl
+  unfold f64FromParts
+  rw [hfuel]
+  unfold loop
+  rw [wrappingAbsUsize_small e (by omega) (by omega), pow10_eq, if_pos (by omega)]
+  simp only
+  have h10 : 0 < 10 ^ e.natAbs := Nat.pos_of_ne_zero (by simp)
+  by_cases hpos : e ≥ 0
+  · -- multiplication
+    rw [if_pos hpos]
+    have hsc : scale10 s e = (s * 10 ^ e.natAbs, 1) := by
+      unfold scale10; rw [if_pos hpos]
+      have : e.toNat = e.natAbs := by omega
+      rw [this]
+    rw [hsc]
+    simp only
+    rw [F64.mul_finite _ _ hafin hbfin, hasign, hbsign, hamag, hbmag]
+    have hno : ¬ Overflows64 (s * 10 ^ e.natAbs) 1 := by
+      apply not_overflows64_of_lt
+      have h1 : 10 ^ e.natAbs ≤ 10 ^ 22 := Nat.pow_le_pow_right (by decide) hk
+      have h2 : s * 10 ^ e.natAbs < 2 ^ 53 * 10 ^ 22 :=
+        Nat.lt_of_lt_of_le (Nat.mul_lt_mul_of_pos_right hs h10) (Nat.mul_le_mul_left _ h1)
+      have h3 : 2 ^ 53 * 10 ^ 22 ≤ 2 ^ 1023 * 1 := by decide +kernel
+      omega
+    have hcongr : roundNE64 false (s * 2 ^ 1074 * (10 ^ e.natAbs * 2 ^ 1074)) (2 ^ 1074 * 2 ^ 1074)
+        = roundNE64 false (s * 10 ^ e.natAbs) 1 := by
+      apply roundNE64_congr _ _ _ _ _ (Nat.mul_pos (two_pow_pos' _) (two_pow_pos' _)) (by decide)
+      ring
+    obtain ⟨r, hr, hrfin, _⟩ := (roundNE64_correct false (s * 10 ^ e.natAbs) 1 (by decide)).1 hno
+    have hval : F64.roundOrInf (false != false) (s * 2 ^ 1074 * (10 ^ e.natAbs * 2 ^ 1074))
+        (2 ^ 1074 * 2 ^ 1074) = r := by
+      unfold F64.roundOrInf
+      rw [show (false != false) = false from rfl, hcongr, hr]; rfl
+    rw [hval, F64.finite_not_inf r hrfin]
+    simp only [Bool.false_eq_true, if_false]
+    cases positive
+    · simp only [Bool.false_eq_true, if_false, Bool.not_false]
+      have := roundNE64_neg false (s * 10 ^ e.natAbs) 1
+      rw [hr] at this; exact this
+    · simp only [if_true, Bool.not_true]; exact hr.symm
+  · -- division
+    rw [if_neg hpos]
+    have hsc : scale10 s e = (s, 10 ^ e.natAbs) := by
+      unfold scale10; rw [if_neg hpos]
+      have : (-e).toNat = e.natAbs := by omega
+      rw [this]
+    rw [hsc]
+    simp only
+    rw [F64.div_finite _ _ hafin hbfin hbz, hasign, hbsign, hamag, hbmag]
+    have hno : ¬ Overflows64 s (10 ^ e.natAbs) := by
+      apply not_overflows64_of_lt
+      have h3 : 2 ^ 53 ≤ 2 ^ 1023 := by decide +kernel
+      have : 2 ^ 1023 * 1 ≤ 2 ^ 1023 * 10 ^ e.natAbs := Nat.mul_le_mul_left _ h10
+      omega
+    have hcongr : roundNE64 false (s * 2 ^ 1074) (10 ^ e.natAbs * 2 ^ 1074)
+        = roundNE64 false s (10 ^ e.natAbs) := by
+      apply roundNE64_congr _ _ _ _ _ (Nat.mul_pos h10 (two_pow_pos' _)) h10
+      ring
+    obtain ⟨r, hr, hrfin, _⟩ := (roundNE64_correct false s (10 ^ e.natAbs) h10).1 hno
+    have hval : F64.roundOrInf (false != false) (s * 2 ^ 1074) (10 ^ e.natAbs * 2 ^ 1074) = r := by
+      unfold F64.roundOrInf
+      rw [show (false != false) = false from rfl, hcongr, hr]; rfl
+    rw [hval]
+    cases positive
+    · simp only [Bool.false_eq_true, if_false, Bool.not_false]
+      have := roundNE64_neg false s (10 ^ e.natAbs)
+      rw [hr] at this; exact this
+    · simp only [if_true, Bool.not_true]; exact hr.symm
 
 end SJ.Proofs.FloatDefault
